@@ -460,4 +460,5 @@ def obligations(tier):
                 mk_divide(1, 12), mk_divide(2, 8), mk_merge(3, 3), mk_plan(2, 3, 2), mk_plan_general(4, (4, 8, 16)), mk_plan_general(6, (3, 8), single1=True), mk_auto(8, 32), mk_auto_prev([(6, 6), (8, 5), (12, 12)], 2, (4, 8, 16, 40), "tiling"), mk_auto_prev([(6, 6), (8, 5), (12, 12)], 2, (4, 8, 16, 40), "bound")]
     return [mk_normalize(1, 12), mk_normalize(2, 8),
             mk_old_to_new(1, 4, True), mk_old_to_new(4, 1, True), mk_old_to_new(3, 3, True), mk_old_to_new(4, 4, False), mk_old_to_new(3, 4, True), mk_old_to_new(4, 2, True),
-            mk_divide(1, 20), mk_divide(2, 12), mk_divide(3, 8), mk_merge(4, 3), mk_merge(5, 2), mk_plan(3, 3, 3), mk_plan(2, 4, 2), mk_plan_general(6, (4, 8, 16, 30)), mk_plan_general(7, (2, 3, 4, 8, 16), single1=True), mk_auto(12, 64), mk_auto_prev([(6, 6), (8, 5), (12, 12), (7, 9), (20, 20)], 3, (4, 8, 16, 24, 40, 100), "tiling"), mk_auto_prev([(6, 6), (8, 5), (12, 12), (7, 9), (20, 20)], 3, (4, 8, 16, 24, 40, 100), "bound")]
+            mk_divide(1, 20), mk_divide(2, 12), mk_divide(3, 8), mk_merge(4, 3), mk_merge(5, 2), mk_plan(3, 3, 3), mk_plan(2, 4, 2), mk_plan_general(6, (4, 8, 16, 30)), mk_plan_general(7, (2, 3, 4, 8, 16), single1=True), mk_auto(12, 64), mk_auto_prev([(6, 6), (8, 5), (12, 12), (7, 9), (20, 20)], 2, (4, 8, 16, 24, 40, 100), "tiling"), mk_auto_prev([(6, 6), (8, 5), (12, 12), (7, 9), (20, 20)], 2, (4, 8, 16, 24, 40, 100), "bound"),
+            mk_auto_prev([(6, 6), (8, 5)], 3, (4, 16), "tiling"), mk_auto_prev([(6, 6), (8, 5)], 3, (4, 16), "bound")]
